@@ -175,7 +175,7 @@ func mkExec(s scen) *mc.Exec {
 		// ---- every pool operation returns ----
 		for _, t := range e.Threads {
 			if harnessThreads[t.Name] && !t.Finished {
-				return fmt.Errorf("[key=deadlock] harness thread %s blocked on %s; parked=%v", t.Name, t.WaitOn, e.Parked())
+				return fmt.Errorf("[key=deadlock] a pool operation never returned\nharness thread %s blocked on %s; parked=%v", t.Name, t.WaitOn, e.Parked())
 			}
 		}
 		never := 1 << 30
@@ -257,10 +257,10 @@ func mkExec(s scen) *mc.Exec {
 			}
 			if m.end != 0 {
 				if m.poolDoneEnd && !cancelCalledBefore(m.end) {
-					return fmt.Errorf("[key=cancelled-while-member-live] SAFETY: the pool's context was already done at step %d, when member %s (%s) ended, and Cancel had not been called", m.endStep, m.name, what)
+					return fmt.Errorf("[key=cancelled-while-member-live] SAFETY: the pool's context was done before a member ended and Cancel had not been called\nalready done at step %d, when member %s (%s) ended", m.endStep, m.name, what)
 				}
 			} else if finalDone && cancelStart == 0 {
-				return fmt.Errorf("[key=cancelled-while-member-live] SAFETY: the pool's context is done although member %s (%s) never ended and Cancel was never called", m.name, what)
+				return fmt.Errorf("[key=cancelled-while-member-live] SAFETY: the pool's context is done although a member never ended and Cancel was never called\nmember %s (%s)", m.name, what)
 			}
 		}
 
@@ -302,14 +302,14 @@ func mkExec(s scen) *mc.Exec {
 				if len(ignoredLive) > 0 && cancelStart == 0 {
 					key = "Add-after-all-members-ended-not-ignored"
 				}
-				return fmt.Errorf("[key=%s] LIVENESS: %s but the pool's context is not done at final quiescence; parked=%v", key, why, e.Parked())
+				return fmt.Errorf("[key=%s] LIVENESS: the pool's context is not done at final quiescence\n%s; parked=%v", key, why, e.Parked())
 			}
 			if len(leaked) > 0 {
-				return fmt.Errorf("[key=watcher-not-ended] LIVENESS: %s and the pool's context is done but the watcher goroutine has not exited: %v", why, leaked)
+				return fmt.Errorf("[key=watcher-not-ended] LIVENESS: the pool's context is done but the watcher goroutine has not exited\n%s; %v", why, leaked)
 			}
 		}
 		if finalDone && len(leaked) > 0 {
-			return fmt.Errorf("[key=watcher-not-ended] the pool's context is done but its watcher goroutine is still alive: %v", leaked)
+			return fmt.Errorf("[key=watcher-not-ended] the pool's context is done but its watcher goroutine is still alive\n%v", leaked)
 		}
 
 		// ---- Size: members being tracked, 0 after Cancel; an Add in flight or
@@ -359,13 +359,13 @@ func mkExec(s scen) *mc.Exec {
 		for _, r := range sizes {
 			lo, hi, hiR, hiZ := bounds(r.start, r.end)
 			if r.v < lo || r.v > hi {
-				return fmt.Errorf("[key=%s] SIZE: Size() called at step %d returned %d, the tracked members number between %d and %d (initially live %d; adds %s; Cancel called=%v returned=%v)", sizeKey(r.v, hi, hiR, hiZ), r.step, r.v, lo, hi, nInit, addSummary(adds), cancelCalledBefore(r.end), cancelEnd > 0 && cancelEnd < r.start)
+				return fmt.Errorf("[key=%s] SIZE: Size() does not report the members being tracked\nSize() called at step %d returned %d, the tracked members number between %d and %d (initially live %d; adds %s; Cancel called=%v returned=%v)", sizeKey(r.v, hi, hiR, hiZ), r.step, r.v, lo, hi, nInit, addSummary(adds), cancelCalledBefore(r.end), cancelEnd > 0 && cancelEnd < r.start)
 			}
 		}
 		final := pool.Size() // controller context: immediate
 		lo, hi, hiR, hiZ := bounds(never, never)
 		if final < lo || final > hi {
-			return fmt.Errorf("[key=%s] SIZE: at final quiescence Size() = %d, the tracked members number between %d and %d (initially live %d; adds %s; Cancel called=%v)", sizeKey(final, hi, hiR, hiZ), final, lo, hi, nInit, addSummary(adds), cancelStart > 0)
+			return fmt.Errorf("[key=%s] SIZE: Size() at final quiescence does not report the members being tracked\nSize() = %d, the tracked members number between %d and %d (initially live %d; adds %s; Cancel called=%v)", sizeKey(final, hi, hiR, hiZ), final, lo, hi, nInit, addSummary(adds), cancelStart > 0)
 		}
 
 		var sz []string
